@@ -6,9 +6,13 @@
    case [102; ua; prog]       -> the function-variant machinery (Lang/VariantCost.v) on a script of defs and top-level calls:
                                  [out of fuel / wrong arity?; the _parse_function invocations in order: [name; [] | [signature]]]
                                  (ua = 1: the memo is looked up through the alias table, as the code does)
+   case [103; room; [stmt ...]] -> the stack model of the two stages (Lang/NestDepth.v with the constants measured on the current
+                                 source, Gen/NestDepth.v) on a program tree (stmt = [0; leaf] | [1; slot; [stmt ...]]):
+                                 [frames parse() needs; frames emit() needs; outcome of the pipeline with `room` frames:
+                                  0 firmware / 1 clean ValueError from parse() / 2 RecursionError from emit()]
    (a unit of its own - Wire/C11W.v stays the evaluator wire shared with C03 - because the extraction flattens names) *)
 From Coq Require Import ZArith List Bool.
-From RV Require Import Base.Wire Lang.Regex Gen.Regexes Lang.FoldSession Lang.VariantCost.
+From RV Require Import Base.Wire Lang.Regex Gen.Regexes Lang.FoldSession Lang.VariantCost Lang.NestDepth Gen.NestDepth.
 Import ListNotations.
 Open Scope Z_scope.
 
@@ -58,8 +62,28 @@ Definition dec_item (v : wv) : option item :=
 Definition enc_parse (e : Z * option sig) : wv :=
   WL [WI (fst e); match snd e with None => WL [] | Some s => WL [wtext s] end].
 
+Fixpoint dec_stmt (v : wv) : option stmt :=
+  match v with
+  | WL [WI 0; WI l] => Some (Leaf (Z.to_nat l))
+  | WL [WI 1; WI k; WL body] =>
+      match (fix go (b : list wv) : option (list stmt) :=
+               match b with
+               | [] => Some []
+               | x :: r => match dec_stmt x, go r with Some a, Some c => Some (a :: c) | _, _ => None end
+               end) body with
+      | Some b => Some (Block (Z.to_nat k) b)
+      | None => None
+      end
+  | _ => None
+  end.
+
 Definition run (v : wv) : wv :=
   match v with
+  | WL [WI 103; WI room; WL ts] =>
+      match dec_all dec_stmt ts with
+      | Some p => WL [WI (need_prog parse_stage p); WI (need_prog emit_stage p); WI (pipeline parse_stage emit_stage room p)]
+      | None => wbad
+      end
   | WL [WI 102; WI ua; WL items] =>
       match dec_all dec_item items with
       | Some p => let s := vrun (negb (ua =? 0)) 400 p in WL [wbool (oof s); WL (map enc_parse (rev (trace s)))]
